@@ -4,9 +4,11 @@ import common, fns, sweeps, labelled
 from common import canon
 
 PROP = 'C03'
-LEAN_MODULES = ['XyzProofs.Props.C03']
+LEAN_MODULES = ['XyzProofs.Props.C03', 'XyzProofs.Props.C03VarDims']
 THEOREMS = ['ToDs.c03_dims_coords', 'ToDs.c03_sel', 'ToDs.c03_constants_resources_attrs', 'ToDs.c03_df_rows',
-            'Core.processNested_get']
+            'Core.processNested_get', 'VarDims.applyItems_spec', 'VarDims.c03_vd_dict', 'VarDims.c03_vd_unknown_rejected',
+            'VarDims.c03_vd_single_keys', 'VarDims.c03_vd_order_irrelevant', 'VarDims.c03_vd_group_dict', 'VarDims.c03_vd_corr',
+            'VarDims.c03_vd_str', 'VarDims.c03_vd_str_needs_single', 'VarDims.c03_vd_empty', 'VarDims.c03_vd_auto']
 ANCHORS = []
 RULE = ("grids (1-3 args x 1-4 values) and case sets (+ optional sub-grid), 1-3 output variables with scalar / 1-d / 2-d "
         "array outputs whose internal dimensions come from var_coords or from a constant, constants that are / are not "
@@ -14,7 +16,10 @@ RULE = ("grids (1-3 args x 1-4 values) and case sets (+ optional sub-grid), 1-3 
         "var_names=None, through combo_runner_to_ds, case_runner_to_ds, *_to_df, Runner.run_combos / run_cases and "
         "label(...), with shuffle and thread/adversarial executors; the canonical Dataset (dims, coords, per-variable dims "
         "and data, attrs) or DataFrame rows are compared with the Lean model, and ds.sel at EVERY labelled point is "
-        "checked by the oracle; non-trivial = >= 2 settings and (>= 2 outputs or an internal dimension or cases or "
+        "checked by the oracle; plus a stream of explicit var_dims spellings (dict in any order, grouped / overlapping / "
+        "unknown keys, list in correspondence, list of pairs incl. repeated keys, mixed lists, bare string, empty forms, "
+        "var_names=None) where parse_var_dims itself is compared with the Lean parser and, for spellings generated from a "
+        "meaning, with that meaning; non-trivial = >= 2 settings and (>= 2 outputs or an internal dimension or cases or "
         "shuffle); distinct by full case")
 TRUSTED = ["xarray Dataset construction / concat (modelled, sampled)", "values of constants / attributes / coordinates are opaque to the model (checked by the oracle)"]
 
@@ -23,6 +28,8 @@ ENTRIES_DF = ['combo_runner_to_df', 'case_runner_to_df', 'runner_df']
 
 
 def nontrivial(c):
+    if c.get('kind') == 'vardims':
+        return c['names'] is not None and len(c['names']) >= 2 and c['sp']['k'] in ('list', 'dict')
     return sweeps.n_settings(c['sweep']) >= 2 and (len(c['desc']['names']) >= 2 or any(c['desc']['dims'])
                                                    or c['sweep']['rows'] is not None or c['strategy'].get('shuffle') or c['strategy']['name'] != 'seq')
 
@@ -50,7 +57,117 @@ def _case(rng, to_df=None, auto=None, cases=None, shuffle=None):
             'reuse': entry in ('runner', 'runner_df', 'label') and rng.random() < 0.3}
 
 
+# ----------------------------------------------------------------------------- spellings of var_dims (parse_var_dims)
+
+def _atom(d, rng):
+    """dimensions `d` (list of str) spelled as an atom: a bare str when there is exactly one (sometimes), else a tuple"""
+    return d[0] if len(d) == 1 and rng.random() < 0.5 else list(d)
+
+
+def _vd_case(rng):
+    names = rng.sample(['x', 'y', 'z', 'w'], rng.randint(1, 4))
+    if rng.random() < 0.05: names.append(names[0])
+    pool = ['t', 'u', 'v'] + ([names[0]] if rng.random() < 0.25 else [])       # a dimension named like an output
+    meaning = {n: ([] if rng.random() < 0.3 else rng.sample(pool, rng.randint(1, min(3, len(pool))))) for n in names}
+    style = rng.choice(['dict', 'dict_groups', 'corr', 'pairs', 'str', 'empty', 'none_names', 'bad_key', 'bad_len',
+                        'overlap', 'dup_pairs', 'mixed', 'bad_pair'])
+    expect = None
+    uniq = list(dict.fromkeys(names))
+    if style == 'dict':
+        ks = [n for n in uniq if meaning[n] or rng.random() < 0.4]
+        rng.shuffle(ks)
+        sp = {'k': 'dict', 'items': [[n, _atom(meaning[n], rng) if meaning[n] else []] for n in ks]}
+        expect = [[n, meaning[n]] for n in uniq]
+    elif style == 'dict_groups':
+        groups = {}
+        for n in uniq: groups.setdefault(tuple(meaning[n]), []).append(n)
+        items = [[(ns if len(ns) > 1 or rng.random() < 0.3 else ns[0]), _atom(list(d), rng) if d else []] for d, ns in groups.items()]
+        rng.shuffle(items)
+        sp = {'k': 'dict', 'items': items}
+        expect = [[n, meaning[n]] for n in uniq]
+    elif style == 'overlap':        # later entries win where keys overlap
+        a, b = rng.sample(pool, 1), rng.sample(pool, 1)
+        grp = rng.sample(uniq, rng.randint(1, len(uniq)))
+        one = rng.choice(uniq)
+        items = [[grp, a[0]], [one, b]] if rng.random() < 0.5 else [[one, b], [grp, a[0]]]
+        sp = {'k': 'dict', 'items': items}
+    elif style == 'corr':
+        sp = {'k': 'list', 'elems': [(_atom(meaning[n], rng) if meaning[n] else []) for n in names]}
+        # in one-to-one correspondence iff some element is a str, empty, or does not start with an output name
+        if len(set(names)) == len(names) and any(isinstance(e, str) or not e or e[0] not in names for e in sp['elems']):
+            expect = [[n, meaning[n]] for n in uniq]
+    elif style == 'pairs':
+        ks = [n for n in uniq if meaning[n] or rng.random() < 0.4] or uniq[:1]
+        rng.shuffle(ks)
+        sp = {'k': 'list', 'elems': [[n, _atom(meaning[n], rng) if meaning[n] else []] for n in ks]}
+        expect = [[n, meaning[n] if n in ks else []] for n in uniq]
+    elif style == 'dup_pairs':
+        ks = [rng.choice(uniq) for _ in range(rng.randint(2, 4))]
+        sp = {'k': 'list', 'elems': [[n, _atom(rng.sample(pool, rng.randint(1, 2)), rng)] for n in ks]}
+    elif style == 'mixed':
+        sp = {'k': 'list', 'elems': [rng.choice([[rng.choice(uniq), rng.choice(pool)], rng.choice(pool), [], [rng.choice(pool), rng.choice(pool)]])
+                                     for _ in range(rng.choice([len(names), len(names), rng.randint(1, 4)]))]}
+    elif style == 'bad_pair':
+        sp = {'k': 'list', 'elems': [[rng.choice(uniq)] + rng.sample(pool, rng.choice([0, 2])) for _ in range(rng.randint(1, 3))]}
+    elif style == 'str':
+        d = rng.choice(pool)
+        sp = {'k': 'str', 'd': d}
+        if len(names) == 1: expect = [[names[0], [d]]]
+    elif style == 'empty':
+        sp = rng.choice([{'k': 'none'}, {'k': 'dict', 'items': []}, {'k': 'list', 'elems': []}, {'k': 'str', 'd': ''}])
+        expect = [[n, []] for n in uniq]
+    elif style == 'none_names':
+        names = None
+        sp = rng.choice([{'k': 'none'}, {'k': 'none'}, {'k': 'dict', 'items': []}, {'k': 'str', 'd': 't'}, {'k': 'dict', 'items': [['x', 't']]}])
+        if sp['k'] == 'none': expect = []
+    elif style == 'bad_key':
+        ks = list(uniq); rng.shuffle(ks)
+        items = [[n, _atom(meaning[n] or ['t'], rng)] for n in ks]
+        bad = rng.choice(['q', ['q', uniq[0]], [uniq[0], 'q']])
+        items.insert(rng.randint(0, len(items)), [bad, 't'])
+        sp = {'k': 'dict', 'items': items}
+    else:   # bad_len
+        sp = {'k': 'list', 'elems': [rng.choice(pool) for _ in range(len(names) + rng.choice([-1, 1, 2]))]}
+        if not sp['elems']: sp['elems'] = ['t', 'u'] if len(names) == 1 else ['t']
+        if len(sp['elems']) == len(names): sp['elems'].append('t')
+    return {'kind': 'vardims', 'names': names, 'sp': sp, 'style': style, 'expect': expect, 'seq_type': rng.choice(['list', 'tuple'])}
+
+
+def _vd_py(c):
+    def atom(a): return a if isinstance(a, str) else tuple(a)
+    def elem(e): return e if isinstance(e, str) else tuple(atom(a) for a in e)
+    sp = c['sp']
+    if sp['k'] == 'none': return None
+    if sp['k'] == 'str': return sp['d']
+    if sp['k'] == 'dict': return {atom(k): atom(v) for k, v in sp['items']}
+    seq = [elem(e) for e in sp['elems']]
+    return seq if c['seq_type'] == 'list' else tuple(seq)
+
+
+def _vd_run(c):
+    from xyzpy.gen.prepare import parse_var_dims, parse_var_names
+    names = None if c['names'] is None else parse_var_names(tuple(c['names']))
+    try:
+        res = parse_var_dims(_vd_py(c), names)
+    except ValueError:
+        return {'err': 'ValueError'}
+    except Exception as ex:
+        return {'err': type(ex).__name__, 'msg': str(ex)[:200]}
+    return {'map': [[k, [d if isinstance(d, str) else list(d) for d in v]] for k, v in res.items()],
+            'types_ok': all(isinstance(v, tuple) for v in res.values())}
+
+
 def cases(ctx):
+    rng = ctx.rng
+    out = []
+    for _ in range(1500 if ctx.tier == 'quick' else 20000):
+        c = _vd_case(rng)
+        ctx.count('var_dims_style', c['style'])
+        out.append(c)
+    return out + _ds_cases(ctx)
+
+
+def _ds_cases(ctx):
     rng = ctx.rng
     out = []
     # boundary: to_df x every shuffle seed on small grids; constants naming / not naming dims; single str-like output
@@ -76,6 +193,7 @@ def teardown(ctx):
 
 
 def run_real(c, ctx):
+    if c.get('kind') == 'vardims': return _vd_run(c)
     import random
     import xyzpy as xyz
     sw, desc = c['sweep'], c['desc']
@@ -128,6 +246,8 @@ def run_real(c, ctx):
 
 
 def model_request(c, obs):
+    if c.get('kind') == 'vardims':
+        return {'op': 'vardims', 'names': c['names'], 'sp': c['sp']}
     sw = c['sweep']
     rq = {'op': 'tods', 'kind': sweeps.model_kind(labelled.kind_of(c['desc'])), 'desc': labelled.model_desc(c['desc']),
           'to_df': c['to_df']}
@@ -140,6 +260,9 @@ def model_request(c, obs):
 
 
 def compare(c, obs, rep):
+    if c.get('kind') == 'vardims':
+        a = obs.get('err') or obs.get('map'); b = rep.get('err') or rep.get('map')
+        return None if a == b else f'parse_var_dims: real {json.dumps(a)} model {json.dumps(b)}'
     if 'err' in obs or 'err' in rep:
         return None if ('err' in obs) == ('err' in rep) else f'error mismatch: real {obs.get("err")} {obs.get("msg")} model {rep.get("err")}'
     if c['to_df']:
@@ -150,5 +273,12 @@ def compare(c, obs, rep):
 
 def oracle(c, obs):
     if 'harness_exc' in obs: return None
+    if c.get('kind') == 'vardims':
+        # the property's side: a spelling generated from a meaning is accepted and normalised to exactly that meaning
+        if c['expect'] is None: return None
+        if 'err' in obs: return f'accepted spelling of var_dims rejected: {obs["err"]} {obs.get("msg", "")}'
+        if obs['map'] != c['expect']: return f'var_dims spelling normalised to {json.dumps(obs["map"])}, meant {json.dumps(c["expect"])}'
+        if not obs['types_ok']: return 'normalised dimensions are not tuples'
+        return None
     if 'err' in obs: return f'raised {obs["err"]}: {obs.get("msg")}'
     return obs['oracle']
